@@ -111,6 +111,14 @@ func (c *Checker) storeInCache(hashesToRequest, respHashes []hostnameHash) {
 			var pref prefix
 			copy(pref[:], hash[:])
 
+			if _, ok := hashToStore[pref]; ok {
+				// Hashes for this prefix have just been received, but the
+				// record could not be kept in the cache because of its size
+				// or has already been evicted.  Don't record the prefix as
+				// empty.
+				continue
+			}
+
 			c.setCache(pref, nil)
 		}
 	}
